@@ -250,6 +250,13 @@ def run_case(case, ctx):
             ctx.count()
             judge(ctx, world, case, calls, [0, 1, 2], [list(x) for x in pre], ex)
             ctx.nontrivial([case["start_name"], [conc.op_pattern(c, world) for c in calls], [c.get("pid") for c in calls], a, ex.outcomes])
+            if ex.saw_timed:
+                # the code under test waits WITH A TIMEOUT: the same schedule once more with every timed wait expiring at once
+                # (the parked holder "stalled for longer than the timeout")
+                ex = conc.run_program(world, calls, [0, 1, 2], pre, expire_timed=True)
+                ctx.count()
+                ctx.classify("executions with expiring timed waits")
+                judge(ctx, world, case, calls, [0, 1, 2], [list(x) for x in pre] + ["timed waits expire"], ex)
         ctx.classify("holder-second-third-programs")
     elif case["mode"] == "cd":
         n = 0
